@@ -591,6 +591,14 @@ def differs_only_in_dates(x, cls, compact):
     return loose_eq(y, x, ignore_dates=True)
 
 
+def compact_wrapper(cls):
+    """A class whose compact form is the bare field: one field, required, additional properties forbidden."""
+    from typedpy.structures import TypedPyDefaults
+    fields = list(cls.get_all_fields_by_name().keys())
+    return (len(fields) == 1 and cls.__dict__.get("_required", fields) == fields and
+            cls.__dict__.get("_additional_properties", TypedPyDefaults.additional_properties_default) is False)
+
+
 def required_none_fields(v, depth=0, out=None):
     """[(class name, field name)]: every Structure reachable from v (v included) that has a REQUIRED field whose
     stored value is None -- whatever the declaration that admits None (NoneField, AnyOf[..., None], Anything, ...)."""
